@@ -78,6 +78,11 @@ def gen_cases(ctx):
         cases.append(line)
         dist[kind] = dist.get(kind, 0) + 1
 
+    corpus = os.path.join(pv.ROOT, "corpus", "spin", "cases.txt")
+    if os.path.exists(corpus):
+        for line in open(corpus):
+            if line.strip() and not line.startswith("#"):
+                add(line.strip(), "corpus")
     for _ in range(20000 if quick else 200000):
         kind = r.choice("SR")
         n = r.choice([2, 2, 3])
@@ -211,7 +216,11 @@ def run(ctx):
 
 def thorough_tsan(ctx, cases, model):
     impl_t = pv.build_harness("tsan", "spin_drv", HARNESS_EXTRA)
-    sub = [c for c in cases if c.startswith("run")][:1500]
+    # the race theorems speak about RecursiveSpinlock with arbitrary clients and about Spinlock with
+    # well-bracketed clients: Spinlock cases whose schedule makes a non-holder unlock are left out
+    cand = [c for c in cases if c.startswith("run")][:6000]
+    _, wb = pv.run_lines(model, [c.replace("run ", "wb ", 1) for c in cand], timeout=600)
+    sub = [c for c, w in zip(cand, wb) if c.startswith("run R") or w == "wb"][:3000]
     rc, out = pv.sh(impl_t, inp="\n".join(sub) + "\n", timeout=1500, env=TSAN_ENV)
     n = tsan_reports(out)
     lines = [l for l in out.splitlines() if l[:1] in "0123456789-|"]
